@@ -167,6 +167,20 @@ def fromWktV (k : Kind) (g : GI) (dt : V) (props : Dict PVal) : Except String Sh
   let d ← dtOfArg dt
   pure { geom := geom, dt := d, props := props }
 
+/-! ## fastkml time objects as `KTime` -/
+
+/-- `isinstance(x, TimeStamp)` / `isinstance(x, TimeSpan)` -/
+def ktIsStamp : KTime → Bool | .stamp _ => true | _ => false
+def ktIsSpan : KTime → Bool | .span _ _ => true | _ => false
+
+/-- `x.timestamp.dt`, `x.begin.dt`, `x.end.dt` (`AttributeError` on an object of another class) -/
+def ktTimestampDt : KTime → Except String Int | .stamp t => .ok t | _ => .error "ERR:Attr"
+def ktBeginDt : KTime → Except String Int | .span b _ => .ok b | _ => .error "ERR:Attr"
+def ktEndDt : KTime → Except String Int | .span _ e => .ok e | _ => .error "ERR:Attr"
+
+/-- `TimeInterval(a, b)` on two instants (pinned `TimeInterval.__init__`) -/
+def tiOfInts (a b : Int) : Except String (Int × Int) := if b < a then .error "ERR:Value" else .ok (a, b)
+
 /-- `include_properties or <keys>` -/
 def inclOr (incl : Option (List String)) (other : List String) : List String :=
   if inclTruthy incl then incl.getD [] else other
